@@ -1,0 +1,52 @@
+//go:build verif
+
+package customtransport
+
+// Contracts for the deductive verifier in /verif (comment-only).
+//
+// C16: the size-calculating transport counts exactly the bytes it is handed:
+// after any sequence of Write / WriteByte / WriteString calls the count is the
+// sum of the lengths (as long as it fits an int32), and nothing else happens.
+
+//@ pred quiet() { len(calls) == old(len(calls)) }
+
+//@ func (*TCalcTransport).GetCount
+//@   property C16, C12
+//@   requires p != nil
+//@   ensures @the_count result == p.count && p.count == old(p.count)
+//@   ensures @quiet quiet()
+
+//@ func (*TCalcTransport).ResetCount
+//@   property C16, C12
+//@   requires p != nil
+//@   modifies p.count
+//@   ensures @zero p.count == 0
+//@   ensures @quiet quiet()
+
+//@ func (*TCalcTransport).Write
+//@   property C16, C12
+//@   requires p != nil && p.count + len(buf) <= 2147483647 && 0 <= p.count
+//@   modifies p.count
+//@   ensures @counts_every_byte p.count == old(p.count) + len(buf) && result0 == len(buf) && result1 == nil
+//@   ensures @buffer_untouched forall i int :: 0 <= i && i < len(buf) ==> buf[i] == old(buf[i])
+//@   ensures @quiet quiet()
+
+//@ func (*TCalcTransport).WriteByte
+//@   property C16, C12
+//@   requires p != nil && p.count + 1 <= 2147483647 && 0 <= p.count
+//@   modifies p.count
+//@   ensures @counts_one_byte p.count == old(p.count) + 1 && result == nil
+//@   ensures @quiet quiet()
+
+//@ func (*TCalcTransport).WriteString
+//@   property C16, C12
+//@   requires p != nil && p.count + len(s) <= 2147483647 && 0 <= p.count
+//@   modifies p.count
+//@   ensures @counts_every_byte p.count == old(p.count) + len(s) && result0 == len(s) && result1 == nil
+//@   ensures @quiet quiet()
+
+//@ func (*TCalcTransport).Flush
+//@   property C16
+//@   requires p != nil
+//@   ensures @no_effect result == nil && p.count == old(p.count)
+//@   ensures @quiet quiet()
